@@ -145,9 +145,22 @@ def jumps(M, rows, i, m, orders):
 
 def run(chk):
     F = facts_for(chk)
+    from ..effects import Effects
+    from .. import core
+    E = Effects(F)
     for short in SPLINES:
         for cls in alg_classes(F, short, ("update", "propagateGrad")):
             check_class(chk, F, short, cls)
+            # "through the same waypoints at the same knot times, with the same end conditions": the minimiser the system
+            # rows describe is the one of *this call's* data only if the boundary rows are pinned, the knots are the prefix
+            # sums of the durations and every entry point hands its own four inputs to the common update - C01's R2 / R3
+            # obligations, re-derived here per class
+            sub = core.Check("C01", chk.tier, chk.root)
+            c01.check_spline_class(sub, F, E, short, cls)
+            rel = [o for o in sub.obs if o["rule"] in ("C01-R2", "C01-R3")]
+            bad = [o for o in rel if not o["ok"]]
+            chk.ob("C02-R1", "%s: the system is solved for this call's waypoints, knot times and end conditions (C01-R2 / R3)" % cls, len(rel) >= 10 and not bad, bad[0]["where"] if bad else "",
+                   "%d obligations of C01-R2/R3; first failing: %s" % (len(rel), bad[0]["instance"][:200] if bad else "-"), construct=cls + "/inputs-premise")
     chk.floor("C02-R2", 12)
     chk.floor("C02-R3", 20)
     chk.floor("C02-R4", 13)
